@@ -56,6 +56,16 @@ class _Norm(ast.NodeTransformer):
             return node.args[0]
         return node
 
+    def visit_BoolOp(self, node):
+        self.generic_visit(node)
+        # `a <= v and v < b` is the chained comparison `a <= v < b` (v is a plain name: evaluated twice or once alike)
+        if isinstance(node.op, ast.And) and len(node.values) == 2 and all(isinstance(x, ast.Compare) for x in node.values):
+            l, r = node.values
+            if isinstance(r.left, ast.Name) and norm(l.comparators[-1]) == norm(r.left):
+                return ast.copy_location(ast.Compare(left=l.left, ops=list(l.ops) + list(r.ops),
+                                                     comparators=list(l.comparators) + list(r.comparators)), node)
+        return node
+
     def visit_UnaryOp(self, node):
         self.generic_visit(node)
         if isinstance(node.op, ast.Not) and isinstance(node.operand, ast.Compare) and len(node.operand.ops) == 1:
@@ -113,7 +123,20 @@ def predicate_text(fn, ctx):
                     lam = vals[0]
         if lam is None or len(lam.args.args) != 1:
             raise _Undecided('no predicate lambda')
-        body = _Norm(lam.args.args[0].arg).visit(copy.deepcopy(lam.body))
+        # locals of the selector bound once (ref = Comparable(value), lo = Comparable(minv)) are written in place
+        single = {}
+        for nme, binds in ctx.res.local_bindings(fn).items():
+            vals = [b[1] for b in binds if b[0] == 'assign']
+            if len(vals) == 1 and len(binds) == 1 and nme not in fn.params and not isinstance(vals[0], ast.Lambda):
+                single[nme] = vals[0]
+
+        class _Loc(ast.NodeTransformer):
+            def visit_Name(self, node):
+                if isinstance(node.ctx, ast.Load) and node.id in single and node.id != lam.args.args[0].arg:
+                    return copy.deepcopy(single[node.id])
+                return node
+        body0 = _Loc().visit(copy.deepcopy(lam.body)) if single else copy.deepcopy(lam.body)
+        body = _Norm(lam.args.args[0].arg).visit(body0)
         return norm(ast.fix_missing_locations(body)), call
     if callee in SELECTORS and callee != fn.name:
         # delegation to another selector: fine when it selects from `table` itself with all arguments handed on;
@@ -708,5 +731,5 @@ def r137(ctx, rep):
             rep.held('R13.7', fn, c, 'applied to the text of one cell', x)
         else:
             rep.undecided('R13.7', fn, c, why, x)
-    if n < 3:
+    if n < 1:
         raise AnalysisError('anchor vanished: itersearch applies the pattern at %d sites' % n)
